@@ -5,13 +5,13 @@ import Gmx.Driver.Util
 namespace Gmx.Drv
 open Gmx
 
-def showFErr : FErr → String
+def fundShowErr : FErr → String
   | .comp => "err comp" | .conv => "err conv" | .arg => "err arg"
   | .emptyOI => "err emptyoi" | .ovf => "err ovf" | .prices => "err prices"
 
-def showQuad (q : Quad) : String := s!"{q.ll} {q.ls} {q.sl} {q.ss}"
+def fundShowQuad (q : Quad) : String := s!"{q.ll} {q.ls} {q.sl} {q.ss}"
 
-def mkFP : List Nat → Option FundingParams
+def fundMkParams : List Nat → Option FundingParams
   | [e, f, i, d, mx, mn, ts, td] => some ⟨e, f, i, d, mx, mn, ts, td⟩
   | _ => none
 
@@ -26,12 +26,12 @@ def fundEngine (args : List String) : String :=
   | ["rate", w, u, e, f, i, d, mx, mn, ts, td, cur, dur, l, s] =>
     match allNat [w, u, dur, l, s], allNat [e, f, i, d, mx, mn, ts, td], pInt cur with
     | some [w, u, dur, l, s], some ps, some cur =>
-      match mkFP ps with
+      match fundMkParams ps with
       | none => "bad-op"
       | some p =>
         match nextFundingFactor w u p cur dur l s with
         | .ok (f, lps, nx) => s!"ok {f} {showBool lps} {nx}"
-        | .error e => showFErr e
+        | .error e => fundShowErr e
     | _, _, _ => "bad-op"
   | ["pack", w, u, adj, fv, oi, price, up] =>
     match allNat [w, u, adj, fv, oi, price], pBool up with
@@ -49,13 +49,13 @@ def fundEngine (args : List String) : String :=
     match allNat [w, u, adj, dur, pl, ps], allNat [e, f, i, d, mx, mn, ts, td], pInt cur, allNat rest with
     | some [w, u, adj, dur, pl, ps], some fp, some cur,
       some [o1, o2, o3, o4, f1, f2, f3, f4, c1, c2, c3, c4] =>
-      match mkFP fp with
+      match fundMkParams fp with
       | none => "bad-op"
       | some p =>
         let st : FundingState := ⟨⟨o1, o2, o3, o4⟩, ⟨f1, f2, f3, f4⟩, ⟨c1, c2, c3, c4⟩, cur⟩
         match updateFunding w u adj p st dur pl ps with
-        | .ok (st', r) => s!"ok {r.next} {showQuad r.dF} {showQuad r.dC} {showQuad st'.fidx} {showQuad st'.cidx}"
-        | .error e => showFErr e
+        | .ok (st', r) => s!"ok {r.next} {fundShowQuad r.dF} {fundShowQuad r.dC} {fundShowQuad st'.fidx} {fundShowQuad st'.cidx}"
+        | .error e => fundShowErr e
     | _, _, _, _ => "bad-op"
   | _ => "bad-op"
 
